@@ -142,10 +142,10 @@ pub fn check_history(h: &Hist) -> Result<(bool, Vec<&'static str>, u64), Failure
 }
 
 pub fn gen_lives(t: &mut Tape) -> Vec<LifePlan> {
-    let first = LifePlan { oneshot: t.chance(1, 8), checks: 1 + t.choose(3), crash_at: if t.chance(1, 3) { Some(1 + t.choose(120)) } else { None } };
+    let first = LifePlan { oneshot: t.chance(1, 8), checks: 1 + t.choose(3), crash_at: if t.chance(1, 3) { Some(1 + t.choose(120)) } else { None }, wall_at_start: None };
     let mut v = vec![first];
     if t.chance(2, 3) {
-        v.push(LifePlan { oneshot: false, checks: 1, crash_at: None });
+        v.push(LifePlan::new(false, 1, None));
     }
     v
 }
